@@ -125,7 +125,9 @@ class TextStream(Stream):
             mv = str(parse_version(m["version"])) if m["version"] is not None else None
             mr = canon_reqs(m["reqs"])
         except Exception:
-            return "error" in r and r["error"] != "MetadataError"
+            # a Requires-Dist value that cannot be parsed: the distribution is unusable (a MetadataError since the D47 repair;
+            # the wheel layouts `unparsable-requirement` pin the kind of the error down)
+            return "error" in r
         return "error" not in r and r["name"] == m["name"] and r["version"] == mv and r["reqs"] == mr
 
     def _classify(self, text):
@@ -210,7 +212,7 @@ class WheelStream(Stream):
         own = "Name: %s\nVersion: 1.0\nRequires-Dist: own-dep\n" % name
         members = [["%s/__init__.py" % name.replace(".", "/"), "x = 1\n"]]
         layout = rng.choice(["own", "own", "own+vendored", "own+vendored-prefix", "none", "nested-own", "corrupt", "own-last", "own+same-name-vendored",
-                             "unreadable-empty", "unreadable-utf16", "unreadable-no-name", "damaged-member"])
+                             "unreadable-empty", "unreadable-utf16", "unreadable-no-name", "damaged-member", "unparsable-requirement"])
         dist = "%s-1.0.dist-info/METADATA" % name
         if layout in ("own", "own+vendored", "own+vendored-prefix", "own-last", "own+same-name-vendored"):
             members.append([dist, own])
@@ -221,6 +223,14 @@ class WheelStream(Stream):
             where = rng.choice(["requires", "description"]) if size else "requires"
             members.append([dist, own + "\n" + ("lorem ipsum dolor sit amet\n" * (size // 27))])
             damaged = {"where": where}
+        if layout == "unparsable-requirement":
+            # a Requires-Dist value no PEP 508 parser accepts (old build tools wrote such bounds): the declaration cannot be
+            # honoured, so the wheel is unusable - it must not be taken with the line dropped
+            bad = rng.choice(["python-dateutil (>=2.8.*)", "futures (>=3.0.*) ; python_version < \"3\"", "foo >=", "bar (== 1.0",
+                              "baz ; python_version >", "qux @"])
+            lines = ["Requires-Dist: own-dep", "Requires-Dist: " + bad, "Requires-Dist: other-dep>=1"]
+            rng.shuffle(lines)
+            members.append([dist, "Name: %s\nVersion: 1.0\n%s\n" % (name, "\n".join(lines))])
         if layout == "unreadable-empty":
             members.append([dist, ""])
         if layout == "unreadable-utf16":
@@ -287,7 +297,7 @@ class WheelStream(Stream):
 
     def oracle(self, case, r):
         lay = case["layout"]
-        if lay in ("none", "corrupt", "unreadable-empty", "unreadable-utf16", "unreadable-no-name", "damaged-member"):
+        if lay in ("none", "corrupt", "unreadable-empty", "unreadable-utf16", "unreadable-no-name", "damaged-member", "unparsable-requirement"):
             if "error" not in r:
                 return [("C11/no-metadata-but-distribution", {"layout": lay, "got": r})]
             if r["error"] != "MetadataError":
